@@ -41,14 +41,16 @@ MODULES = ['Pyiga.Model.Index', 'Pyiga.Model.MLMatrix', 'Pyiga.Model.Layout', 'P
 
 # (form of c01.FORMS, is the form symmetric?)
 CFG_FORMS = [('lapl_c', True), ('mass2', True), ('stiff3', True), ('conv1d', False), ('pg', False),
-             ('vec22', True), ('vec21', False), ('divdiv2', True), ('matpar', False)]
+             ('vec22', True), ('vec21', False), ('divdiv2', True), ('matpar', False), ('divdiv3', True)]
 THREAD_COUNTS = [1, 2, 3, 5, 8, 16]
 UPD_FORM = 'f*u*v*dx + c*inner(grad(u),grad(v))*dx'
+UPD2_FORM = 'f*u*v*dx + inner(grad(f),grad(u))*v*dx + c*inner(grad(f),grad(f))*u*v*dx'     # updatable field at two derivative orders
 SYM_TOL = 8 * 4.0 * 8200 * 2.0 ** -53     # 8 x the C01 forward-error factor for <= 8000 nodes, relative to max|entry|
 STALE_FORM = 'f*f*f*f*u*v*dx + f*f*f*f*inner(grad(u),grad(v))*dx + f*u*v*dx'
 STALE_FORM2 = 'f*f*f*f*u*v*dx + f*f*f*f*inner(grad(u),grad(v))*dx'     # every use of f goes through the common subexpression
 PRECOMP_FORMS = [UPD_FORM.replace('c*', ''), STALE_FORM, STALE_FORM2, 'exp(f*f+1)*u*v*dx + exp(f*f+1)*f*inner(grad(u),grad(v))*dx',
-                 'f*u*v*dx', 'inner(grad(f),grad(f))*u*v*dx + inner(grad(f),grad(f))*inner(grad(u),grad(v))*dx', 'u*v*dx']
+                 'f*u*v*dx', 'inner(grad(f),grad(f))*u*v*dx + inner(grad(f),grad(f))*inner(grad(u),grad(v))*dx', 'u*v*dx',
+                 'f*u*v*dx + inner(grad(f),grad(u))*v*dx', UPD2_FORM.replace('c*', '')]
 
 
 def canon(A):
@@ -77,7 +79,7 @@ def guard(f):
 
 def worker_cfg(name, symform, seed, tier):
     import pyiga
-    from pyiga import assemble, mlmatrix, _hdiscr
+    from pyiga import assemble, mlmatrix, _hdiscr, assemble_tools
     pyiga.set_max_threads(1)
     out = {'name': name, 'status': 'ok', 'violations': [], 'reqs': [], 'counts': {}}
     case = c01.make_case(name, seed, tier)
@@ -154,13 +156,49 @@ def worker_cfg(name, symform, seed, tier):
             for r in range(nc1):
                 for c in range(nc0):
                     blocked[r * M + i, c * N + j] = B[r, c]
+        cfgs = [(l, f) for l in ('packed', 'blocked') for f in ('csr', 'csc', 'coo', 'bsr', 'mlb')]
+        if dim == 3:     # large matrices: the distinct code paths only
+            cfgs = [('packed', 'bsr'), ('packed', 'csr'), ('blocked', 'csr'), ('blocked', 'mlb')]
+        if square and symform:
+            # which blocks does the symmetric core compute, which does it fill by mirroring?  (model: vecSkip = J > I lexicographically)
+            core = getattr(assemble_tools, 'generic_assemble_core_vec_%dd' % dim)
+            raw = guard(lambda: np.asarray(core(asm, S.bidx[:dim], True)).reshape(len(I), nc1 * nc0))
+            if isinstance(raw, str):
+                out['violations'].append(('vec-core:' + name, 'generic_assemble_core_vec_%dd(symmetric=True) raised %s' % (dim, raw), desc, True))
+            else:
+                pos = {(int(i), int(j)): k for k, (i, j) in enumerate(zip(I, J))}
+                skipped = []
+                ndet = 0
+                for k, (i, j) in enumerate(zip(I, J)):
+                    B = np.array(flat[k]); BT = np.array(flat[pos[(int(j), int(i))]]).reshape(nc1, nc0).T.ravel()
+                    if i == j or np.array_equal(B, BT):
+                        # computed or mirrored cannot be told apart (diagonal, or bitwise symmetric) - but it must be that block
+                        skipped.append('?' if np.array_equal(raw[k], B) else 'x')
+                    elif np.array_equal(raw[k], B):
+                        skipped.append('0'); ndet += 1
+                    elif np.array_equal(raw[k], BT):
+                        skipped.append('1'); ndet += 1
+                    else:
+                        skipped.append('x')          # neither the block nor the mirrored one
+                out['counts']['skip-set: determined blocks'] = ndet
+                out['reqs'].append(('drv_c08', 'skipset %s' % plist(S.bidx, lambda p: plist(p.tolist(), lambda e: '%d %d' % tuple(e))), ('skip', skipped), 'vector core skip set'))
+                if 'x' in skipped:
+                    k = skipped.index('x')
+                    out['violations'].append(('vec-core:' + name, 'symmetric vector core: block (%d,%d) is neither asm.multi_blocks (i,j) nor the transposed (j,i) block (e.g. left zero)' % (I[k], J[k]), desc, True))
         for sym in ([False, True] if (square and symform) else [False]):
-            for layout in ('packed', 'blocked'):
-                for fmt in ('csr', 'csc', 'coo', 'bsr', 'mlb'):
+            for (layout, fmt) in cfgs:
+                if True:
                     def f():
                         A = assemble.assemble_entries(asm, symmetric=sym, format=fmt, layout=layout)
                         if fmt == 'mlb':
-                            A = A.asmatrix()
+                            # the operator itself (ml_matvec_2d/3d for <= 3 levels) against its own sparse form
+                            v = rng.integers(-2, 3, size=A.shape[1]).astype(float)
+                            Am = A.asmatrix()
+                            y = np.asarray(A @ v).ravel()
+                            bound = 64 * 2.0 ** -53 * (abs(Am) @ np.abs(v)) + 1e-300
+                            if y.shape != (A.shape[0],) or np.any(np.abs(y - Am @ v) > bound):
+                                out['violations'].append(('mlb-matvec:' + name, 'MLMatrix (format=mlb, layout=%s, %dx%d component blocks) applied to a vector differs from its asmatrix() times the vector' % (layout, nc1, nc0), desc, True))
+                            A = Am
                         return canon(A)
                     got = guard(f)
                     if layout == 'packed' and fmt == 'bsr':
@@ -272,7 +310,7 @@ def _field(kvs, rng, lo=0.5, hi=1.5):
     return bspline.BSplineFunc(fk, rng.uniform(lo, hi, size=tuple(kv.numdofs for kv in fk)))
 
 
-def worker_update(seed, tier, stale, form2=False):
+def worker_update(seed, tier, stale, form2=False, two_orders=False):
     """update(f=...) / update_params vs constructing afresh; reuse of one assembler object"""
     import pyiga
     from pyiga import assemble
@@ -280,7 +318,7 @@ def worker_update(seed, tier, stale, form2=False):
     out = {'name': 'update-stale' if stale else 'update', 'status': 'ok', 'violations': [], 'reqs': [], 'counts': {}}
     case = c01.make_case('lapl_c', seed, tier)
     kvs = case['kvs0']; geo = case['geo']; rng = case['rng']
-    form = (STALE_FORM2 if form2 else STALE_FORM) if stale else UPD_FORM
+    form = (STALE_FORM2 if form2 else STALE_FORM) if stale else (UPD2_FORM if two_orders else UPD_FORM)
     desc = {'form': form, 'updatable': ['f'], 'seed': seed, 'kvs0': [(kv.kv.tolist(), kv.p) for kv in kvs], 'geometry': case['gkind']}
     out['desc'] = desc
     f0 = _field(kvs, rng)
@@ -403,6 +441,8 @@ def worker(name, seed, tier, **kw):
         return worker_update(seed, tier, False)
     if name == 'update-stale':
         return worker_update(seed, tier, True)
+    if name == 'update2':
+        return worker_update(seed, tier, False, two_orders=True)
     if name == 'update-stale2':
         return worker_update(seed, tier, True, form2=True)
     if name.startswith('threads'):
@@ -502,13 +542,70 @@ def precomp_stream(ctx):
                     ctx.violation('update-stale-precomputed', 'dependency_analysis precomputes `%s`, which depends on an updatable input field (form %s, updatable=%s)' % (v.name, expr, upd),
                                   {'form': expr, 'updatable': upd, 'var': v.name}, True)
             ctx.count('precomp requests')
+    # generated update(): every field array fed by an updatable input must be re-assigned (text of the generated
+    # source, no C compiler): assignments of __init__ that read input f  ==  assignments under `if f:` in update()
+    import re
+    from pyiga import compile as pcompile
+    rhs_pat = [(re.compile(r'grid_eval\((\w+),'), 0), (re.compile(r'grid_eval_transformed\((\w+),'), 0),
+               (re.compile(r'(\w+)\.grid_jacobian\('), 1), (re.compile(r'(\w+)\.grid_hessian\('), 2)]
+    asg = re.compile(r'self\.fields\.base\[.*?(\d+):(\d+)\] = (.*)\.reshape')
+    for expr in PRECOMP_FORMS:
+        for upd in (['f'], ['f', 'geo']):
+            try:
+                src = pcompile.generate(vform.parse_vf(expr, kvs, args={'geo': geo, 'f': f}, updatable=upd))
+            except AssertionError:
+                ctx.count('genupdate: generate refused (AssertionError)')
+                continue
+            except Exception as ex:
+                ctx.count('genupdate: generate raised ' + type(ex).__name__)
+                continue
+            if 'def update(self' not in src:
+                continue
+            init_part, upd_part = src.split('def update(self', 1)
+            upd_part = upd_part.split('\n    def ', 1)[0].split('\n    @', 1)[0]
+            names = sorted(set(upd))
+            def classify(rhs):
+                for pat, d in rhs_pat:
+                    mo = pat.search(rhs)
+                    if mo:
+                        return mo.group(1), d
+                return None, None
+            info = []
+            for mo in asg.finditer(init_part):
+                a, b, rhs = int(mo.group(1)), int(mo.group(2)), mo.group(3)
+                nm, d = classify(rhs)
+                if nm is None:
+                    continue
+                gi = names.index(nm) if nm in names else 99
+                info.append('1 %d %d %d %d' % (gi, d, b - a, a))
+            for gi, nm in enumerate(names):
+                blk = re.search(r'if %s:\n((?:\s+self\.fields.*\n?)*)' % nm, upd_part)
+                got_rng = []
+                if blk:
+                    for mo in asg.finditer(blk.group(1)):
+                        _, d = classify(mo.group(3))
+                        got_rng.append('%d:%d:%d' % (int(mo.group(1)), int(mo.group(2)), d))
+                # several `if f:` blocks (one per variable) are what the code generates: collect all of them
+                got_rng = []
+                for blk in re.finditer(r'if %s:\n((?:[ ]+self\.fields.*\n?)+)' % nm, upd_part):
+                    for mo in asg.finditer(blk.group(1)):
+                        _, d = classify(mo.group(3))
+                        got_rng.append('%d:%d:%d' % (int(mo.group(1)), int(mo.group(2)), d))
+                req.append('updslots %d %s' % (gi, plist(info)))
+                exp.append(plist(got_rng))
+                ctx.count('genupdate requests')
     got = ctx.model('drv_c08', req)
     nd = sum(1 for e, g in zip(exp, got) if e != g)
     for r, e, g in zip(req, exp, got):
-        if e != g:
+        if e != g and r.startswith('updslots'):
+            ctx.violation('update-slots', 'generated update() does not re-assign every field array fed by the updatable input: update() assigns %s, __init__ fills %s from that input' % (e, g),
+                          {'request': r, 'generated update()': e, 'model (all arrays of the input)': g}, False)
+            break
+    for r, e, g in zip(req, exp, got):
+        if e != g and not r.startswith('updslots'):
             ctx.violation('precomp-corr', 'model and dependency_analysis disagree on self.precomp: implementation %s, model %s' % (e, g), {'request': r, 'implementation': e, 'model': g}, False)
             break
-    ctx.obligation('precomp stream: %d dependency graphs, model rule == VForm.dependency_analysis' % len(req), nd == 0 and len(req) > 0, '%d disagreements' % nd)
+    ctx.obligation('precomp/genupdate stream: %d requests (dependency graphs; slot ranges of generated update()), model == implementation' % len(req), nd == 0 and len(req) > 0, '%d disagreements' % nd)
     return len(req)
 
 
@@ -518,10 +615,11 @@ def make_jobs(ctx):
         jobs.append({'name': name, 'seed': int(ctx.seed * 1000003 + 7919 + k), 'tier': ctx.tier})
     jobs += [{'name': 'bbox', 'seed': int(ctx.seed * 1000003 + 31), 'tier': ctx.tier},
              {'name': 'update', 'seed': int(ctx.seed * 1000003 + 32), 'tier': ctx.tier},
+             {'name': 'update2', 'seed': int(ctx.seed * 1000003 + 35), 'tier': ctx.tier},
              {'name': 'update-stale', 'seed': int(ctx.seed * 1000003 + 33), 'tier': ctx.tier},
              {'name': 'update-stale2', 'seed': int(ctx.seed * 1000003 + 34), 'tier': ctx.tier}]
     # compiled things first
-    order = {'bbox': 0, 'update': 0, 'update-stale': 0, 'update-stale2': 0}
+    order = {'bbox': 0, 'update': 0, 'update2': 0, 'update-stale': 0, 'update-stale2': 0}
     jobs.sort(key=lambda j: order.get(j['name'], 0 if isinstance(c01.FORMS.get(j['name'], (0, 0, ''))[2], str) else 1))
     tjobs = [{'name': 'threads%d' % n, 'seed': int(ctx.seed * 1000003 + 555), 'tier': ctx.tier} for n in THREAD_COUNTS]
     return jobs, tjobs
@@ -594,7 +692,10 @@ def run(ctx):
         for g, (req, impl, what, name, desc) in zip(got, reqs[drv]):
             ctx.count('model requests ' + drv)
             ok = True
-            if isinstance(impl, tuple):
+            if isinstance(impl, tuple) and impl[0] == 'skip':
+                mod = g.split()[1:]
+                ok = len(mod) == len(impl[1]) and all(a in ('?', 'x') or a == b for a, b in zip(impl[1], mod))
+            elif isinstance(impl, tuple):
                 _, v, tol = impl
                 toks = g.split()
                 if toks[0] == 'box':
